@@ -33,7 +33,7 @@ Print Assumptions C08_dest_of_flow.
    only for an open, non-failed l; no assignment of address / via / tls / transport to a connection that
    requests are waiting on -- both evaluated on every observed history by the correspondence check):
    every request that is completed with a connection gets one whose (address, tls, via, transport) equal the
-   request's destination at that moment, which is open and has not failed; and the request was really issued
+   destination of the request at that moment, which is open and has not failed; and the request was really issued
    at or before that step.  In particular no request head is ever written to a failed connection. *)
 Theorem C08_routing : forall cf ctx hist,
   ctx_server cf = 1 -> env_ok cf (init_state ctx) hist = true ->
@@ -48,7 +48,7 @@ Print Assumptions C08_routing.
 (* DISPATCH.  The full statement -- the head of a completed request is processed by the layer stack of the
    very connection it was completed with -- is FALSE of the faithful model (finding
    carrier-reused-as-origin): the TCP connection to an upstream proxy is registered in HttpLayer.connections
-   under the proxy's own address with the tunnel's layer stack as handler, so a later request whose destination
+   under the address of the proxy itself with the layer stack of the tunnel as handler, so a later request whose destination
    is that address (no via) is written into the CONNECT tunnel of another destination. *)
 Theorem C08_dispatch_refuted :
   exists cf ctx hist i outs rid g c k h,
@@ -61,7 +61,7 @@ Proof. exact dispatch_refuted. Qed.
 Print Assumptions C08_dispatch_refuted.
 
 (* ... and it holds under the guard guard_ok, which is exactly the complement of the finding: no request
-   asks for a destination matching a registered connection whose handler is another connection's stack. *)
+   asks for a destination matching a registered connection whose handler is the stack of another connection. *)
 Theorem C08_dispatch_partial : forall cf ctx hist,
   ctx_server cf = 1 -> guard_ok cf (init_state ctx) hist = true ->
   forall i outs rid g c k h,
